@@ -1,6 +1,7 @@
 package logqlengine
 
 import (
+	"encoding/binary"
 	"maps"
 	"regexp"
 	"slices"
@@ -81,10 +82,20 @@ func (a *aggregatedLabels) Key() logqlmetric.GroupingKey {
 		return strings.Compare(x.name, y.name)
 	})
 
-	h := xxhash.New()
+	// Delimit names and values by their length, so that {ab="c"} and
+	// {a="bc"} do not collide.
+	var (
+		h   = xxhash.New()
+		buf [8]byte
+	)
+	writeString := func(s string) {
+		binary.LittleEndian.PutUint64(buf[:], uint64(len(s)))
+		_, _ = h.Write(buf[:])
+		_, _ = h.WriteString(s)
+	}
 	for _, e := range visible {
-		_, _ = h.WriteString(e.name)
-		_, _ = h.WriteString(e.value)
+		writeString(e.name)
+		writeString(e.value)
 	}
 	return h.Sum64()
 }
